@@ -7,6 +7,7 @@ use std::sync::atomic::{AtomicU64, Ordering};
 use std::sync::{Arc, Mutex};
 use vrp_core::construction::heuristics::*;
 use vrp_core::models::problem::{Job, JobIdDimension, VehicleIdDimension};
+use vrp_pragmatic::format::JobTypeDimension;
 use vrp_core::prelude::*;
 use vrp_core::rosomaxa::prelude::*;
 use vrp_core::solver::search::*;
@@ -64,9 +65,8 @@ fn evaluator_case(run: &Run, case_seed: u64) {
     cfg.p_values = 0.0;
     cfg.p_order = 0.0;
     cfg.p_unreachable = 0.0;
-    // "with deterministic selection": multi-task jobs are evaluated over randomly sampled permutations, so the
-    // evaluator clause uses single-task jobs only
-    cfg.p_multi_jobs = 0.0;
+    // "with deterministic selection": multi-task jobs with more than one pickup or delivery are evaluated over randomly
+    // sampled task permutations; only single-task jobs and pickup+delivery pairs (one fixed permutation) are offered
     let gp = generate(&mut rng, &cfg);
     let ReadOutcome::Ok(problem) = read_problem(&gp) else {
         run.inconclusive("generated problem rejected by reader");
@@ -88,7 +88,20 @@ fn evaluator_case(run: &Run, case_seed: u64) {
         run.inconclusive("ruin removed nothing");
         return;
     }
-    let jobs: Vec<&Job> = ctx.solution.required.iter().collect();
+    let is_deterministic = |job: &&Job| match job {
+        Job::Single(_) => true,
+        Job::Multi(multi) => {
+            let kinds: Vec<&str> = multi.jobs.iter().map(|s| s.dimens.get_job_type().map_or("?", |t| t.as_str())).collect();
+            kinds == ["pickup", "delivery"]
+        }
+    };
+    let jobs: Vec<&Job> = ctx.solution.required.iter().filter(is_deterministic).collect();
+    if jobs.is_empty() {
+        run.inconclusive("ruin removed only jobs with sampled permutations");
+        return;
+    }
+    run.observe_n("offered_jobs", "single-task", jobs.iter().filter(|j| j.as_single().is_some()).count() as u64);
+    run.observe_n("offered_jobs", "pickup+delivery pair", jobs.iter().filter(|j| j.as_multi().is_some()).count() as u64);
     let routes: Vec<&RouteContext> = ctx.solution.routes.iter().chain(ctx.solution.registry.next_route()).collect();
     let goal = &ctx.problem.goal;
     // sequential oracle: nested loops, every (job, route) evaluated on its own, lexicographic minimum of the costs
@@ -229,7 +242,7 @@ fn main() {
         600,
     );
     run.assume("metric routing and the default objective list (activity-level estimates >= 0): the evaluator's pruning against the best known alternative is only claimed for those (DESIGN D10)");
-    run.assume("evaluator clause: single-task jobs only (multi-task jobs are evaluated over randomly sampled task permutations, which is not deterministic selection)");
+    run.assume("evaluator clause: single-task jobs and pickup+delivery pairs only (jobs with several pickups or deliveries are evaluated over randomly sampled task permutations, which is not deterministic selection)");
     run.assume("cost vectors are compared component-wise within 1e-9 relative (floating point noise of mathematically zero deltas); identity of job/route is not compared because ties may resolve differently");
     if let Some(path) = run.replay.clone() {
         let doc: Value = serde_json::from_str(&std::fs::read_to_string(&path).unwrap_or_default()).unwrap_or(Value::Null);
@@ -249,6 +262,7 @@ fn main() {
     par_for(3, solve_cases, &|| !run.has_time(), &|i| solve_case(&run, mix(run.seed ^ 0x5151, i), layouts[(i as usize) % layouts.len()]));
     run.floor("evaluate_all runs compared", run.observed("pool_threads", "16"), 20);
     run.floor("distinct per-thread partitions observed", run.observed("distinct_thread_partitions", "total"), 50);
+    run.floor("pickup+delivery pairs offered to evaluate_all", run.observed("offered_jobs", "pickup+delivery pair"), 20);
     run.floor("sequential scans with a feasible insertion", run.observed("sequential_outcome", "success"), 10);
     for l in layouts.iter() {
         run.floor(&format!("solves under layout {}x{}", l.0, l.1), run.observed("solve_layout", &format!("{}x{}", l.0, l.1)), 2);
